@@ -127,6 +127,13 @@ def classify_pop(ctx: Ctx, p: POp, state_params: Set[str]):
         if is_table_path(ctx, p.path, state_params) or is_table_path(ctx, p.base, state_params):
             return ("index", "list kept in a context table (may be empty)")
         return None
+    if p.kind == "unpack" and isinstance(p.key, int):
+        # `a, b = xs`: needs exactly len(xs) == 2; tracked when the length of xs can be worked out from how it is built
+        b = _len_bounds(p.base, p.pc)
+        if b is not None and b != (p.key, p.key) and b[0] < p.key:
+            return ("unpack", f"a sequence of {b[0]}..{b[1] if b[1] is not None else 'any number of'} items (built from "
+                              f"{may_be_short_list(_short_source(p.base)) or 'a list that may be short'})")
+        return None
     if p.kind == "sub":
         base, key = p.base, p.key
         pth = p.path
@@ -165,7 +172,90 @@ def classify_pop(ctx: Ctx, p: POp, state_params: Set[str]):
     return None
 
 
+INF = 10 ** 9
+
+
+def _short_source(t: T) -> T:
+    for x in sym.walk(t):
+        if may_be_short_list(x) and x.op == "call":
+            return x
+    return t
+
+
+def _len_bounds(t: T, pc=()):
+    """(least, greatest or None) number of items of a sequence term, None when the way it is built is not followed; lengths
+    established on the path (`if len(xs) >= 6:`) raise the least."""
+    b = _len_bounds0(t, pc)
+    known = guards.min_len(pc, t) if pc else 0
+    if b is None:
+        return (known, None) if known else None
+    return (max(b[0], known), b[1])
+
+
+def _len_bounds0(t: T, pc=()):
+    def _len_bounds(x):        # (the recursive calls below go through the path-aware wrapper)
+        return globals()["_len_bounds"](x, pc)
+
+    def ci(x):
+        return x.a[0] if x.op == "const" and isinstance(x.a[0], int) and not isinstance(x.a[0], bool) else None
+    if t.op in ("tuple", "list"):
+        if any(i.op == "star" for i in t.a[0]):
+            return None
+        return (len(t.a[0]), len(t.a[0]))
+    if t.op == "const" and isinstance(t.a[0], (tuple, str, bytes)):
+        return (len(t.a[0]), len(t.a[0]))
+    if t.op == "call" and t.a[0].op == "attr" and t.a[0].a[1] == "parse_vnodes":
+        return (0, None)
+    if t.op == "call" and t.a[0].op == "builtin" and t.a[0].a[0] in ("list", "tuple", "sorted", "reversed") and len(t.a[1]) == 1:
+        return _len_bounds(t.a[1][0])
+    if t.op == "comp" and t.a[0] in ("list", "gen") and len(t.a[2]) == 1:
+        b = _len_bounds(t.a[2][0][1])
+        if b is None:
+            return None
+        return b if not t.a[2][0][2] else (0, b[1])
+    if t.op == "bin" and t.a[0] == "+":
+        l, r = _len_bounds(t.a[1]), _len_bounds(t.a[2])
+        if l is None or r is None:
+            return None
+        return (l[0] + r[0], None if l[1] is None or r[1] is None else l[1] + r[1])
+    if t.op == "slice" and len(t.a) == 3:
+        b = _len_bounds(t.a[0])
+        lo = 0 if t.a[1] == sym.NONE else ci(t.a[1])
+        hi = None if t.a[2] == sym.NONE else ci(t.a[2])
+        if b is None or lo is None or lo < 0 or (t.a[2] != sym.NONE and (hi is None or hi < 0)):
+            return None
+        least = max(0, (b[0] if hi is None else min(b[0], hi)) - lo)
+        most = None if b[1] is None and hi is None else max(0, (hi if b[1] is None else b[1] if hi is None else min(b[1], hi)) - lo)
+        return (least, most)
+    if t.op == "call" and t.a[0] == T("global", ("itertools.repeat",)):
+        if len(t.a[1]) == 1:
+            return (INF, None)
+        n = ci(t.a[1][1]) if len(t.a[1]) == 2 else None
+        return None if n is None else (n, n)
+    if t.op == "call" and t.a[0] == T("global", ("itertools.chain",)):
+        bs = [_len_bounds(x) for x in t.a[1]]
+        if any(b is None for b in bs):
+            return None
+        return (sum(b[0] for b in bs), None if any(b[1] is None for b in bs) else sum(b[1] for b in bs))
+    if t.op == "call" and t.a[0] == T("global", ("itertools.islice",)) and len(t.a[1]) == 2 and ci(t.a[1][1]) is not None:
+        b, n = _len_bounds(t.a[1][0]), ci(t.a[1][1])
+        if b is None:
+            return None
+        return (min(b[0], n), n if b[1] is None else min(b[1], n))
+    if t.op == "ite":
+        l = globals()["_len_bounds"](t.a[1], tuple(pc) + ((t.a[0], True),))
+        r = globals()["_len_bounds"](t.a[2], tuple(pc) + ((t.a[0], False),))
+        if l is None or r is None:
+            return None
+        return (min(l[0], r[0]), None if l[1] is None or r[1] is None else max(l[1], r[1]))
+    return None
+
+
 def judge(ctx: Ctx, p: POp, cls: str, rec: sym.Record) -> Optional[str]:
+    if cls == "unpack":
+        if guards.in_try(p, ("ValueError", "Exception", "BaseException")):
+            return "enclosing try/except ValueError"
+        return None
     if cls == "lookup":
         return guards.member_guarded(p, rec)
     if cls == "index":
@@ -234,7 +324,8 @@ def analyse_record(ctx: Ctx, run: Run, rec: sym.Record, module: str, root: str, 
         scope = fn.split(".", 1)[1] if fn.count(".") >= 1 and fn.split(".")[0] in ("traces_parser", "callstacks_parser") else fn
         scope = p.func.rsplit(".", 1)[-1] if not p.func.endswith("__str__") else ".".join(p.func.rsplit(".", 2)[-2:])
         expr = f"{sym.pretty(p.path if p.path is not None else p.base)[:70]}" + \
-               (f"[{sym.pretty(p.key)[:40]}]" if p.kind == "sub" else (".pop()" if p.kind == "emptypop" else f".{p.key}"))
+               (f"[{sym.pretty(p.key)[:40]}]" if p.kind == "sub" else (".pop()" if p.kind == "emptypop" else
+                                                                        f" unpacked into {p.key} names" if p.kind == "unpack" else f".{p.key}"))
         construct = f"{cls}: {expr}"
         key = (module_of(p.func), scope, construct)
         prev = seen.get(key)
@@ -252,6 +343,7 @@ def analyse_record(ctx: Ctx, run: Run, rec: sym.Record, module: str, root: str, 
             kind = {"lookup": "raises KeyError when the key was never announced",
                     "index": "raises IndexError when the list is shorter",
                     "index-param": "raises IndexError when the list has no element at that position",
+                    "unpack": "raises ValueError (not enough values to unpack) when it holds fewer",
                     "optional": "raises AttributeError/TypeError when the value is None"}[cls]
             what = f"{expr} ({desc}) is evaluated when [{cond}] without a guard that covers it: {kind}"
         run.ob("R1", module_of(p.func), scope, construct, ok, what,
